@@ -40,6 +40,105 @@ def _add(nodes, **nd):
     return len(nodes) - 1
 
 
+VARIANTS = ['twosite1d', 'twosite2d', 'twosite_lin', 'cat_axis', 'flatten_end']
+
+
+def custom_model(torch, rng, variant):
+    """hand-written families the node-list grammar cannot express: a layer (+ its BatchNorm) invoked at two call sites of
+    forward, the numpy-style `axis=` keyword of torch.cat, flatten with an explicit positive / negative end_dim"""
+    import torch.nn as nn
+    c = rng.randint(2, 5)
+    bn = rng.random() < 0.7
+    if variant == 'twosite1d':
+        K, d = rng.randint(1, 4), rng.choice([1, 2])
+        cin, T = rng.randint(1, 3), rng.randint(6, 10)
+
+        class M(nn.Module):
+            def __init__(s):
+                super().__init__()
+                s.p0 = nn.ConstantPad1d((2, 0), 0); s.c0 = nn.Conv1d(cin, c, 3)
+                s.pa = nn.ConstantPad1d(((K - 1) * d, 0), 0); s.c = nn.Conv1d(c, c, K, dilation=d); s.bn = nn.BatchNorm1d(c) if bn else nn.Identity()
+                s.p1 = nn.ConstantPad1d((1, 0), 0); s.c1 = nn.Conv1d(c, 2, 2)
+
+            def forward(s, x):
+                a = torch.relu(s.c0(s.p0(x)))
+                b = torch.relu(s.bn(s.c(s.pa(a))))
+                e = torch.relu(s.bn(s.c(s.pa(b))))
+                return s.c1(s.p1(e))
+        return M(), [cin, T], 'twosite1d(K=%d,d=%d,c=%d,bn=%s)' % (K, d, c, bn)
+    if variant == 'twosite2d':
+        cin, hw = rng.randint(1, 3), rng.randint(4, 6)
+
+        class M(nn.Module):
+            def __init__(s):
+                super().__init__()
+                s.c0 = nn.Conv2d(cin, c, 3, padding=1); s.c = nn.Conv2d(c, c, 3, padding=1); s.bn = nn.BatchNorm2d(c) if bn else nn.Identity()
+                s.c1 = nn.Conv2d(c, 2, 1)
+
+            def forward(s, x):
+                a = torch.relu(s.c0(x))
+                b = torch.relu(s.bn(s.c(a)))
+                e = torch.relu(s.bn(s.c(b)))
+                return s.c1(e)
+        return M(), [cin, hw, hw], 'twosite2d(c=%d,bn=%s)' % (c, bn)
+    if variant == 'twosite_lin':
+        cin = rng.randint(2, 5)
+
+        class M(nn.Module):
+            def __init__(s):
+                super().__init__()
+                s.f0 = nn.Linear(cin, c); s.f = nn.Linear(c, c); s.bn = nn.BatchNorm1d(c) if bn else nn.Identity(); s.f1 = nn.Linear(c, 3)
+
+            def forward(s, x):
+                a = torch.relu(s.f0(x))
+                b = torch.relu(s.bn(s.f(a)))
+                e = torch.relu(s.bn(s.f(b)))
+                return s.f1(e)
+        return M(), [cin], 'twosite_lin(c=%d,bn=%s)' % (c, bn)
+    if variant == 'cat_axis':
+        cin, hw, ca, cb = rng.randint(1, 3), rng.randint(3, 5), rng.randint(1, 4), rng.randint(1, 4)
+        kwd = rng.choice(['axis', 'dim', 'pos', 'neg'])
+
+        class M(nn.Module):
+            def __init__(s):
+                super().__init__()
+                s.c0 = nn.Conv2d(cin, c, 3, padding=1); s.ca = nn.Conv2d(c, ca, 3, padding=1); s.cb = nn.Conv2d(c, cb, 1); s.c1 = nn.Conv2d(ca + cb, 2, 3, padding=1)
+
+            def forward(s, x):
+                a = torch.relu(s.c0(x))
+                u, v = s.ca(a), s.cb(a)
+                if kwd == 'axis':
+                    z = torch.cat([u, v], axis=1)
+                elif kwd == 'dim':
+                    z = torch.cat([u, v], dim=1)
+                elif kwd == 'neg':
+                    z = torch.cat([u, v], -3)
+                else:
+                    z = torch.cat([u, v], 1)
+                return s.c1(torch.relu(z))
+        return M(), [cin, hw, hw], 'cat_%s(c=%d,%d+%d)' % (kwd, c, ca, cb)
+    cin, hw = rng.randint(1, 3), rng.randint(2, 4)
+    end = rng.choice([3, -1, None, 'kw3', 'module'])
+
+    class M(nn.Module):
+        def __init__(s):
+            super().__init__()
+            s.c0 = nn.Conv2d(cin, c, 3, padding=1); s.fl = nn.Flatten(1, 3); s.fc = nn.Linear(c * hw * hw, 3)
+
+        def forward(s, x):
+            a = torch.relu(s.c0(x))
+            if end == 'module':
+                f = s.fl(a)
+            elif end == 'kw3':
+                f = torch.flatten(a, start_dim=1, end_dim=3)
+            elif end is None:
+                f = torch.flatten(a, 1)
+            else:
+                f = torch.flatten(a, 1, end)
+            return s.fc(f)
+    return M(), [cin, hw, hw], 'flatten_end_%s(c=%d,hw=%d)' % (end, c, hw)
+
+
 def gen_spec(rng, dim):
     return ga.gen(rng, dim=dim, conv_head=True, k1d=[1, 2, 3, 3, 4, 5, 6, 7, 8, 9], p_stride=0.2)
 
@@ -48,11 +147,18 @@ def gen_spec(rng, dim):
 def set_masks(torch, rng, p, mode, tpat=None):
     """randomise every trainable masker of the PIT model `p` (shared maskers once).  tpat: {layer name: (r, v)}"""
     from plinio.methods.pit.nn import PITConv1d, PITConv2d, PITLinear
+    from plinio.methods.pit.nn.features_masker import PITFrozenFeaturesMasker
     seen = set()
     for nm, layer in p.seed.named_modules():
         if not isinstance(layer, (PITConv1d, PITConv2d, PITLinear)):
             continue
         fm = layer.out_features_masker
+        if id(fm) not in seen and isinstance(fm, PITFrozenFeaturesMasker) and rng.random() < 0.5:
+            # a frozen masker keeps every feature whatever its (unused) alpha holds, e.g. after load_state_dict(strict=False)
+            # from a differently configured PIT: write adversarial values into it
+            seen.add(id(fm))
+            with torch.no_grad():
+                fm.alpha.copy_(torch.tensor([rng.choice(pm.SMALL + [0.5, -0.5, 0.25, 3.0]) for _ in range(fm.alpha.numel())], dtype=fm.alpha.dtype))
         if id(fm) not in seen and fm.alpha.requires_grad:
             seen.add(id(fm))
             C = fm.alpha.numel()
@@ -64,7 +170,7 @@ def set_masks(torch, rng, p, mode, tpat=None):
             elif m == 'adv':
                 a = [rng.choice(pm.ADV) for _ in range(C)]
             else:
-                a = [rng.choice(pm.BIG) if rng.random() < 0.55 else rng.choice(pm.SMALL + [0.25, -0.25, 0.5 - 2.0 ** -10, 0.5]) for _ in range(C)]
+                a = [rng.choice(pm.BIG) if rng.random() < 0.55 else rng.choice(pm.SMALL + [0.25, -0.25, 0.5 - 2.0 ** -10, 0.5, -0.5, 0.5, -0.5]) for _ in range(C)]
             with torch.no_grad():
                 fm.alpha.copy_(torch.tensor(a, dtype=fm.alpha.dtype))
         if isinstance(layer, PITConv1d) and layer.timestep_masker.beta.requires_grad:
@@ -167,6 +273,9 @@ def net_case(torch, job):
         if job['kind'] == 'pattern':
             K, d0, r, v = job['pat']
             spec = pattern_spec(rng, K, d0, dw_mid=job.get('dw_mid', False))
+        elif job['kind'] == 'custom':
+            cm, ishape, desc = custom_model(torch, rng, job['variant'])
+            spec = {'dim': len(ishape) - 1, 'nodes': [], 'productions': ['custom:' + job['variant']], 'input_shape': ishape, 'custom': desc}
         else:
             if job['kind'] == 'xnet':
                 # BN-free, no average pooling: every value stays an integer -> the whole network is evaluated by the Coq model
@@ -182,16 +291,30 @@ def net_case(torch, job):
                 spec = gen_spec(rng, job.get('dim') or rng.choice([1, 1, 2]))
             # depthwise-after-concat / add-of-concat: their masker groups are frozen since the C09 fix; no longer skipped, counted
             o['topo'] = [t for t, f in (('dw-after-cat', ga.has_dw_after_cat), ('add-of-cat', ga.has_add_of_cat)) if f(spec)]
-        o['arch'] = ga.describe(spec)
+        o['arch'] = spec.get('custom') or ga.describe(spec)
         o['spec'] = spec
         integer = job['integer']
         # averages are not integers: exact comparison only without average pooling
         exact = integer and not any(nd['k'].startswith(('avgpool', 'gap')) for nd in spec['nodes'])
-        m = ga.build(spec, seed=seed, integer=integer)
+        if job['kind'] == 'custom':
+            m = cm
+            g = torch.Generator().manual_seed(seed)
+            with torch.no_grad():
+                for prm in m.parameters():
+                    prm.copy_(torch.randint(-3, 4, prm.shape, generator=g).float() if integer else torch.randn(prm.shape, generator=g) * 0.5)
+                for mod in m.modules():
+                    if isinstance(mod, (torch.nn.BatchNorm1d, torch.nn.BatchNorm2d)) and not integer:
+                        mod.running_mean.copy_(torch.randn(mod.running_mean.shape, generator=g))
+                        mod.running_var.copy_(torch.rand(mod.running_var.shape, generator=g) * 1.5 + 0.5)
+            xg = torch.Generator().manual_seed(1000 + seed)
+            shp = (2,) + tuple(spec['input_shape'])
+            xs = [(torch.randint(-3, 4, shp, generator=xg) if integer else torch.randn(shp, generator=xg)).double()]
+        else:
+            m = ga.build(spec, seed=seed, integer=integer)
+            xs = ga.example_input(spec, torch, seed, integer=integer, batch=2, dtype=torch.float64)
         if integer:
             fill_int_bn(torch, rng, m)
         m = m.double().eval()
-        xs = ga.example_input(spec, torch, seed, integer=integer, batch=2, dtype=torch.float64)
         p = PIT(m, input_example=xs[0] if len(xs) == 1 else tuple(xs), fold_bn=job['fold'])
         p = p.double().eval()
         tpat = None
@@ -199,6 +322,15 @@ def net_case(torch, job):
             first = [nm for nm, l in p.seed.named_modules() if isinstance(l, PITConv1d)][0]
             tpat = {first: (r, v)}
         set_masks(torch, rng, p, job['mode'], tpat)
+        if job['kind'] == 'custom' and job['variant'].startswith('twosite'):
+            # the re-used layer reads the first producer at one call site and ITSELF at the other: unless the two maskers hold
+            # the same mask the single exported layer cannot serve both call sites (open finding); make them equal in most cases
+            mods = dict(p.seed.named_modules())
+            first, again = (mods['f0'], mods['f']) if 'f0' in mods else (mods['c0'], mods['c'])
+            if rng.random() < 0.65 and first.out_features_masker.alpha.requires_grad and again.out_features_masker.alpha.requires_grad:
+                with torch.no_grad():
+                    first.out_features_masker.alpha.copy_(again.out_features_masker.alpha)
+            o['twosite_mismatch'] = _bools(first.features_mask) != _bools(again.features_mask)
         o['switches'] = apply_switches(rng, p)
         pl = {nm: l for nm, l in p.seed.named_modules() if isinstance(l, (PITConv1d, PITConv2d, PITLinear))}
 
